@@ -397,10 +397,19 @@ func (fsdb *FsDb) importCertConfigFile(certContent config.CertificateContent, co
 	}
 
 	if !alreadyExists {
-		fsdb.configs[certContent.Alias] = &certContent
 		meta = &fsMetadata{
 			configFileName: configPath,
 		}
+
+		//two config files with the same stem would write to the same .pem
+		for otherAlias, otherMeta := range fsdb.fsMetadata {
+			if otherMeta.artifactFileName() == meta.artifactFileName() {
+				return fmt.Errorf("config files %s (alias %s) and %s (alias %s) share the artifact file %s",
+					otherMeta.configFileName, otherAlias, configPath, certContent.Alias, meta.artifactFileName())
+			}
+		}
+
+		fsdb.configs[certContent.Alias] = &certContent
 		fsdb.fsMetadata[certContent.Alias] = meta
 		fsdb.artifacts[certContent.Alias] = &db.BuildArtifact{}
 	}
